@@ -262,6 +262,9 @@ class Ctx:
             if v["key"] in seen_keys:
                 continue
             seen_keys.add(v["key"])
+            if nviol >= 8:      # one replay file per distinct key, at most 8 lines per run
+                self.extra["violations_not_printed"] = self.extra.get("violations_not_printed", 0) + 1
+                continue
             h = hashlib.sha1(json.dumps(v, sort_keys=True, default=str).encode()).hexdigest()[:10]
             path = rdir / f"{self.prop}-{h}.json"
             path.write_text(json.dumps({"property": self.prop, "seed": self.seed, "tier": self.tier,
@@ -276,6 +279,10 @@ class Ctx:
                                         "no_longer_checks": self.broken[:50]}, indent=1, default=str))
             lines.append(f"VIOLATION property={self.prop} replay={path} no-failing-input-found")
             nviol += 1
+        _k = {}
+        for v in self.violations:
+            _k.setdefault(v["key"], v["what"][:160])
+        self.extra["all_violation_keys"] = [f"{k} :: {w}" for k, w in sorted(_k.items())][:200]
         self.write_evidence(level, nviol)
         for l in lines:
             print(l)
@@ -284,9 +291,12 @@ class Ctx:
 
     def write_evidence(self, level: str, nviol: int):
         a = self.audit_info or {"obligations": [], "discharged": []}
+        gobl = getattr(self, "gen_obligations", [])
+        gdis = getattr(self, "gen_discharged", [])
         cov = {
-            "obligations": len(a["obligations"]),
-            "discharged": len(a["discharged"]),
+            "obligations": len(a["obligations"]) + len(gobl),
+            "discharged": len(a["discharged"]) + len(gdis),
+            "generated_table_theorems": gobl,
             "checker_cmd": "cd /verif/lean && lake build NdonnxVerif ndonnx_model && lake env lean <Audit: #print axioms of every theorem in Props/%s.lean>" % self.prop,
             "trusted_base": TRUSTED_BASE,
             "theorems": a["obligations"],
